@@ -13,7 +13,7 @@
     proved; they are validated at run time under the race detector (harness/cmd/c18race).
     Deadlock freedom is not stated (the checker only rejects re-acquisition of a held mutex). *)
 From Coq Require Import List String Bool Arith PeanoNat.
-From GoBT Require Import model.Locks spec.RaceSpec proofs.LocksProofs.
+From GoBT Require Import model.Locks spec.RaceSpec proofs.LocksProofs proofs.AuditD18.
 From GoBT Require gen.Locks gen.Globals.
 Import ListNotations.
 Local Open Scope string_scope.
@@ -73,7 +73,15 @@ Print Assumptions C18_engine_shares_nothing.
 (** ... hence threads whose accesses are confined the way an Execute call's are (read package-level
     variables, read/write their own allocations; shared writes only to variables the scan found
     mutated — there are none) never race, and every thread that finishes has observed exactly
-    the reads it observes when run alone: concurrent validation = sequential validation *)
+    the reads it observes when run alone: concurrent validation = sequential validation.
+    (Close to holding by construction: under [shares_nothing] a [confined] thread writes only its own
+    allocations and reads only those and never-written package-level variables, so non-interference
+    follows from the definition of [confined]. That an Execute call IS confined - in particular that
+    the transactions handed to concurrent calls are distinct objects: createThread/apply writes the
+    previous output into tx.Inputs[i] and the signature opcodes clone the whole tx, so two calls on
+    different inputs of the SAME transaction are not covered - is the hand-written abstraction,
+    validated only by the run-time race harness. The conclusion is about the reads a call observes;
+    that its verdict is a function of those reads is left implicit.) *)
 Theorem C18_concurrent_equals_sequential : forall gl ef fr, shares_nothing gl ef fr = true ->
   forall (mem0 : loc -> value) (P : tid -> list mact),
   (forall t, confined (mutated_names gl) ef t (P t) = true) ->
@@ -81,6 +89,31 @@ Theorem C18_concurrent_equals_sequential : forall gl ef fr, shares_nothing gl ef
   ~ racy s /\ forall t, prog (thr s t) = [] -> log (thr s t) = seq_log mem0 (P t) [].
 Proof. exact concurrent_equals_sequential_proof. Qed.
 Print Assumptions C18_concurrent_equals_sequential.
+
+(** SENSITIVITY of the one obligation that depends on fees.go (audit D), exhaustively on the GENERATED table:
+    deleting any single RLock/Lock, or any single RUnlock/Unlock, from any path of any method makes
+    the checker answer false *)
+Theorem C18_every_lock_is_needed :
+  forallb (fun t => negb (well_locked_raw t)) (mutate_table "acquire" gen.Locks.fee_methods) = true /\
+  forallb (fun t => negb (well_locked_raw t)) (mutate_table "release" gen.Locks.fee_methods) = true /\
+  (0 < List.length (mutate_table "acquire" gen.Locks.fee_methods))%nat /\
+  List.length (mutate_table "acquire" gen.Locks.fee_methods) = List.length (mutate_table "release" gen.Locks.fee_methods).
+Proof. exact every_lock_is_needed. Qed.
+Print Assumptions C18_every_lock_is_needed.
+
+(** ... and the table is not trivially well locked: every guarded field is read and written in it *)
+Theorem C18_guarded_fields_all_accessed :
+  forallb (fun gf => touches "read" (snd gf) gen.Locks.fee_methods && touches "write" (snd gf) gen.Locks.fee_methods)
+          gen.Locks.guarded_fields = true /\ gen.Locks.guarded_fields <> [].
+Proof. exact guarded_fields_all_accessed. Qed.
+Print Assumptions C18_guarded_fields_all_accessed.
+
+(** LOCK ORDER certificate (deadlock freedom itself is not stated, see the header): in every path of
+    every method, calls inlined, a receiver's mutex is acquired only with nothing held, an element's
+    only with at most the receiver's held, and nothing is acquired under an element's mutex *)
+Theorem C18_fee_table_lock_ordered : lock_ordered fee_table = true /\ fee_table <> [].
+Proof. exact fee_table_lock_ordered. Qed.
+Print Assumptions C18_fee_table_lock_ordered.
 
 (** schedules given as lists are reachable states (so the theorems cover every [run]) *)
 Theorem C18_run_reachable : forall sched s s', run s sched = Some s' -> reachable s s'.
